@@ -7,56 +7,71 @@
    atRun    handlers that were registered when Run was called
    runs     number of Run calls so far;  runRet: the first Run has returned
    started / stopReq / stopped           Started() seen closed / Stop() called / Stopped() seen closed
-   ending   the router has a reason to close itself: Run context cancelled,
-            every handler stopped, or Close called                               *)
+   cancelled  the Run context has been cancelled
+   ctxOf    h :> "run" | "fresh": the context h's subscription was made with (the Run context or
+            another one handed to RunHandlers); cancelling the Run context ends exactly the former
+   ending   the router has a reason to close itself: at least one handler was added and every
+            added handler has ended (stopped, or subscribed with the cancelled Run context)       *)
 EXTENDS Naturals, Sequences, FiniteSets, TLC
 
-VARIABLES added, subs, atRun, runs, runRet, started, stopReq, stopped, ending, rhPend, closedSeen
-lvars == <<added, subs, atRun, runs, runRet, started, stopReq, stopped, ending, rhPend, closedSeen>>
+VARIABLES added, subs, atRun, runs, runRet, started, stopReq, stopped, ending, rhPend, closedSeen, cancelled, ctxOf
+lvars == <<added, subs, atRun, runs, runRet, started, stopReq, stopped, ending, rhPend, closedSeen, cancelled, ctxOf>>
 
 Upd(f, k, v) == (k :> v) @@ f
 LInit0 == /\ added = << >> /\ subs = << >> /\ atRun = {} /\ runs = 0 /\ runRet = FALSE /\ started = {} /\ stopReq = {}
-          /\ stopped = {} /\ ending = FALSE /\ rhPend = << >> /\ closedSeen = FALSE
+          /\ stopped = {} /\ ending = FALSE /\ rhPend = << >> /\ closedSeen = FALSE /\ cancelled = FALSE /\ ctxOf = << >>
+
+\* handlers that have (a reason to have) ended, and whether that leaves the router without work
+Ended(sr, canc, cx) == sr \cup {h \in DOMAIN cx : canc /\ cx[h] = "run"}
+AllEnded(sr, canc, cx) == DOMAIN added # {} /\ DOMAIN added \subseteq Ended(sr, canc, cx)
 
 AddHandler(h, p) == /\ h \notin DOMAIN added /\ added' = Upd(added, h, p) /\ subs' = Upd(subs, h, 0)
-                    /\ UNCHANGED <<atRun, runs, runRet, started, stopReq, stopped, ending, rhPend, closedSeen>>
+                    /\ UNCHANGED <<atRun, runs, runRet, started, stopReq, stopped, ending, rhPend, closedSeen, cancelled, ctxOf>>
 \* each handler subscribes exactly once, however often RunHandlers is called
-Subscribed(h) == /\ h \in DOMAIN added /\ subs[h] = 0 /\ subs' = [subs EXCEPT ![h] = 1]
-                 /\ UNCHANGED <<added, atRun, runs, runRet, started, stopReq, stopped, ending, rhPend, closedSeen>>
+Subscribed(h, k) == /\ h \in DOMAIN added /\ subs[h] = 0 /\ subs' = [subs EXCEPT ![h] = 1]
+                    /\ ctxOf' = Upd(ctxOf, h, k)
+                    /\ ending' = (ending \/ AllEnded(stopReq, cancelled, Upd(ctxOf, h, k)))
+                    /\ UNCHANGED <<added, atRun, runs, runRet, started, stopReq, stopped, rhPend, closedSeen, cancelled>>
 RunCall == /\ runs' = runs + 1 /\ atRun' = IF runs = 0 THEN DOMAIN added ELSE atRun
-           /\ UNCHANGED <<added, subs, runRet, started, stopReq, stopped, ending, rhPend, closedSeen>>
+           /\ UNCHANGED <<added, subs, runRet, started, stopReq, stopped, ending, rhPend, closedSeen, cancelled, ctxOf>>
 \* Running() is closed only after every handler registered before Run holds its subscription
 RunningSeen == /\ runs >= 1 /\ \A h \in atRun : subs[h] = 1
                /\ UNCHANGED lvars
 \* a second Run returns an error; the first returns nil, and only once the router has a reason to end
 RunRetFirst(ok) == /\ runs >= 1 /\ ~runRet /\ ok /\ ending /\ runRet' = TRUE
-                   /\ UNCHANGED <<added, subs, atRun, runs, started, stopReq, stopped, ending, rhPend, closedSeen>>
+                   /\ UNCHANGED <<added, subs, atRun, runs, started, stopReq, stopped, ending, rhPend, closedSeen, cancelled, ctxOf>>
 RunRetSecond(ok) == /\ runs >= 2 /\ ~ok /\ UNCHANGED lvars
 \* RunHandlers: when it returns, every handler registered before the call holds its subscription
 RHCall(i) == /\ rhPend' = Upd(rhPend, i, DOMAIN added)
-             /\ UNCHANGED <<added, subs, atRun, runs, runRet, started, stopReq, stopped, ending, closedSeen>>
+             /\ UNCHANGED <<added, subs, atRun, runs, runRet, started, stopReq, stopped, ending, closedSeen, cancelled, ctxOf>>
 RHRet(i, ok) == /\ i \in DOMAIN rhPend
                 /\ ok => \A h \in rhPend[i] : subs[h] = 1
                 /\ ~ok => (runs = 0 \/ ending)
                 /\ rhPend' = [x \in DOMAIN rhPend \ {i} |-> rhPend[x]]
-                /\ UNCHANGED <<added, subs, atRun, runs, runRet, started, stopReq, stopped, ending, closedSeen>>
+                /\ UNCHANGED <<added, subs, atRun, runs, runRet, started, stopReq, stopped, ending, closedSeen, cancelled, ctxOf>>
 StartedSeen(h) == /\ h \in DOMAIN added /\ subs[h] = 1 /\ started' = started \cup {h}
-                  /\ UNCHANGED <<added, subs, atRun, runs, runRet, stopReq, stopped, ending, rhPend, closedSeen>>
+                  /\ UNCHANGED <<added, subs, atRun, runs, runRet, stopReq, stopped, ending, rhPend, closedSeen, cancelled, ctxOf>>
 \* once Started() is closed Stop() is usable (a panic or a nil Stopped() channel matches no action)
 StopCall(h) == /\ h \in started /\ stopReq' = stopReq \cup {h}
-               /\ ending' = (ending \/ stopReq \cup {h} = DOMAIN added)
-               /\ UNCHANGED <<added, subs, atRun, runs, runRet, started, stopped, rhPend, closedSeen>>
-StoppedSeen(h) == /\ h \in stopReq \/ ending
+               /\ ending' = (ending \/ AllEnded(stopReq \cup {h}, cancelled, ctxOf))
+               /\ UNCHANGED <<added, subs, atRun, runs, runRet, started, stopped, rhPend, closedSeen, cancelled, ctxOf>>
+StoppedSeen(h) == /\ h \in Ended(stopReq, cancelled, ctxOf) \/ ending
                   /\ stopped' = stopped \cup {h}
-                  /\ UNCHANGED <<added, subs, atRun, runs, runRet, started, stopReq, ending, rhPend, closedSeen>>
+                  /\ UNCHANGED <<added, subs, atRun, runs, runRet, started, stopReq, ending, rhPend, closedSeen, cancelled, ctxOf>>
 \* a message sent to handler h: it must be handled unless h (or a handler sharing its publisher) was stopped or the router is ending
 Probe(h, ok) == /\ h \in DOMAIN added /\ subs[h] = 1
-                /\ (~ending /\ \A g \in stopReq : added[g] # added[h]) => ok
+                /\ (~ending /\ h \notin Ended(stopReq, cancelled, ctxOf) /\ \A g \in stopReq : added[g] # added[h]) => ok
                 /\ UNCHANGED lvars
-CancelRun == ending' = TRUE /\ UNCHANGED <<added, subs, atRun, runs, runRet, started, stopReq, stopped, rhPend, closedSeen>>
-ClosedSeen == (ending \/ stopReq = DOMAIN added) /\ closedSeen' = TRUE /\ UNCHANGED <<added, subs, atRun, runs, runRet, started, stopReq, stopped, ending, rhPend>>
+\* cancelling the Run context ends the handlers subscribed with it; a router that has no handler yet keeps running
+CancelRun == /\ cancelled' = TRUE /\ ending' = (ending \/ AllEnded(stopReq, TRUE, ctxOf))
+             /\ UNCHANGED <<added, subs, atRun, runs, runRet, started, stopReq, stopped, rhPend, closedSeen, ctxOf>>
+\* Close called by the user: every handler ends, Run returns nil
+CloseCall == ending' = TRUE /\ UNCHANGED <<added, subs, atRun, runs, runRet, started, stopReq, stopped, rhPend, closedSeen, cancelled, ctxOf>>
+ClosedSeen == ending /\ closedSeen' = TRUE /\ UNCHANGED <<added, subs, atRun, runs, runRet, started, stopReq, stopped, ending, rhPend, cancelled, ctxOf>>
 \* when the last handler ended or the Run context was cancelled the router closed itself and Run returned nil
-QuiescentL == /\ DOMAIN rhPend = {}
-              /\ (ending /\ runs >= 1) => (runRet /\ closedSeen)
+\* ... and the Stopped() channel of every started handler is closed once the router has ended (unstopped = those that are not)
+QuiescentL(unstopped) ==
+              /\ DOMAIN rhPend = {}
+              /\ (ending /\ runs >= 1) => (runRet /\ closedSeen /\ unstopped = << >>)
               /\ stopReq \subseteq stopped
 =============================================================================
